@@ -188,6 +188,17 @@ func c11Probe(args []string) int {
 			return write()
 		}
 	}
+	// a block that was dropped by the recovery leaves nothing in the indexes: its transactions are unknown
+	if H == ref.H && int(H)-1 < len(hist.Blocks) {
+		if txs, err := histTxs(hist.Blocks[H-1]); err == nil {
+			for i, tx := range txs {
+				if m, err := r.L.GetTransactionMeta(tx.GetHash()); err == nil && m != nil && m.BlockHeight > H {
+					res.Outcome, res.Detail = "stale-index-of-dropped-block", fmt.Sprintf("recovered at height %d, but transaction %d of the dropped block %d is still indexed (height %d, position %d)", H, i, H+1, m.BlockHeight, m.Index)
+					return write()
+				}
+			}
+		}
+	}
 	// continue with the remaining reference blocks
 	res.Outcome = "crash-while-continuing"
 	write()
@@ -319,6 +330,15 @@ func crash11Workload(args []string) int {
 					g.forceReq = true
 				}
 				txs := g.genBlock(gen.R.Height() + 1)
+				// a storage key that is readable and at the same time a valid hex string (the journal hex-encodes
+				// keys): set before the crash block, overwritten by it
+				if h >= 20 && gen.R.Height()+1 == h {
+					txs = append(txs, gen.BVM(harness.User(2), harness.AddrStore, "Set", pb.String("cafe"), pb.String("before")), gen.BVM(harness.User(2), harness.AddrStore, "Set", pb.String("00ff"), pb.String("before")))
+				}
+				if h >= 20 && gen.R.Height() == h {
+					txs = append(txs, gen.BVM(harness.User(2), harness.AddrStore, "Set", pb.String("cafe"), pb.String("in the crash block")), gen.BVM(harness.User(2), harness.AddrStore, "Set", pb.String("00ff"), pb.String("in the crash block")))
+					w.Count("crash_blocks_overwriting_hex_looking_keys", 1)
+				}
 				if creates && gen.R.Height() == h {
 					ek := harness.EthAddr(harness.EthKey("eth-creator"))
 					initCode := []byte{0x60, 0x2a, 0x60, 0xff, 0x55, // SSTORE(0xff, 0x2a): the slot key is 31 zero bytes and 0xff - not valid UTF-8
